@@ -43,6 +43,9 @@ Proof.
   apply IHND. intros H1; apply NI; right; auto.
 Qed.
 
+Lemma NoDup_app_r {A} (l1 l2 : list A) : NoDup (l1 ++ l2) -> NoDup l2.
+Proof. induction l1; simpl; auto. intros H; inversion H; auto. Qed.
+
 (* ---------- store ---------- *)
 
 Lemma length_upd m a f : length (upd m a f) = length m.
@@ -398,3 +401,121 @@ Proof.
       rewrite (om_list_abs _ _ I'). cbn [mem]. unfold absl at 1. rewrite map_app. fold (absl m' (l0 ++ [t0])). rewrite Eabs.
       simpl. rewrite Ea. reflexivity.
 Qed.
+
+(* ---------- Delete ---------- *)
+
+Definition upd_opt (m : list node) (t : option nat) (f : node -> node) : list node :=
+  match t with Some p => upd m p f | None => m end.
+
+Lemma absl_upd_opt_kv m t f l : keeps_kv f -> absl (upd_opt m t f) l = absl m l.
+Proof. destruct t; simpl; auto. apply absl_upd_kv. Qed.
+
+Lemma find_addr_upd_opt_kv m t f l k : keeps_kv f -> find_addr (upd_opt m t f) l k = find_addr m l k.
+Proof. destruct t; simpl; auto. apply find_addr_upd_kv. Qed.
+
+Lemma l_del_absent l k : ~ In k (map fst l) -> l_del l k = l.
+Proof.
+  induction l as [|[k' v'] r IH]; simpl; auto. intros H. destruct (k =? k') eqn:E.
+  - apply N.eqb_eq in E. exfalso; apply H; auto.
+  - rewrite IH; auto.
+Qed.
+
+Lemma last_or_some b r : exists t, last_or (Some b) r = Some t.
+Proof. revert b; induction r; intros b. exists b; auto. rewrite last_or_cons. apply IHr. Qed.
+
+Lemma stepA m l1 a l2 x :
+  NoDup (l1 ++ a :: l2) -> seg m None l1 (Some a) -> seg m (Some a) l2 None ->
+  let m1 := upd_opt m (last_or None l1) (set_next x) in
+  seg m1 None l1 x /\ seg m1 (Some a) l2 None.
+Proof.
+  intros ND S1 S2. destruct l1 as [|p l1 _] using rev_ind; simpl.
+  - unfold last_or; simpl. auto.
+  - rewrite last_or_app. simpl. rewrite <- app_assoc in ND. simpl in ND. split.
+    + eapply seg_set_next_last; eauto.
+      apply NoDup_remove_2 in ND. intros H; apply ND. apply in_or_app; auto.
+    + apply seg_upd_out; auto. apply NoDup_remove_2 in ND. intros H; apply ND. apply in_or_app; right; right; auto.
+Qed.
+
+Lemma stepB m l1 a l2 q x :
+  NoDup (l1 ++ a :: l2) -> seg m None l1 x -> seg m (Some a) l2 None ->
+  let m2 := upd_opt m (hd_or l2 None) (set_prev q) in
+  seg m2 None l1 x /\ seg m2 q l2 None.
+Proof.
+  intros ND S1 S2. destruct l2 as [|y r]; simpl; auto.
+  assert (NDy : NoDup (y :: r)). { apply NoDup_app_r in ND. inversion ND; auto. }
+  split.
+  - apply seg_upd_out; auto. intros H.
+    assert (X : NoDup (l1 ++ (a :: y :: r))) by auto.
+    clear - X H. induction l1; simpl in *. tauto. inversion X; subst. destruct H as [->|H]; auto.
+    apply H2. apply in_or_app; right; right; left; auto.
+  - eapply seg_set_prev_first; eauto. inversion NDy; auto.
+Qed.
+
+Theorem delete_spec o k : Inv o ->
+  Inv (fst (om_delete o k)) /\ om_list (fst (om_delete o k)) = l_del (om_list o) k /\
+  snd (om_delete o k) = match l_get (om_list o) k with Some _ => true | None => false end.
+Proof.
+  intros [l I]. pose proof (om_list_abs _ _ I) as A.
+  pose proof (seg_bound _ _ _ _ (i_seg _ _ I)) as B.
+  unfold om_delete. rewrite (i_dict _ _ I). rewrite A, l_get_absl.
+  destruct (find_addr (mem o) l k) as [a|] eqn:F.
+  2: { simpl. split; [exists l; auto|]. split; auto. rewrite A. symmetry. apply l_del_absent. apply find_addr_none; auto. }
+  destruct (find_addr_split _ _ _ _ F) as (l1 & l2 & -> & K & F1).
+  rewrite nth_error_nd by (apply B; apply in_or_app; right; left; auto).
+  set (n := nd (mem o) a) in *. cbn [fst snd option_map].
+  pose proof (i_seg _ _ I) as S. apply seg_app in S. destruct S as [S1 S2]. cbn [seg hd_or] in S1, S2.
+  destruct S2 as (Sa & Sp & Sn & S2). fold n in Sp, Sn.
+  pose proof (i_nodup _ _ I) as ND.
+  change (match nprev n with Some p => upd (mem o) p (set_next (nnext n)) | None => mem o end)
+    with (upd_opt (mem o) (nprev n) (set_next (nnext n))).
+  set (m1 := upd_opt (mem o) (nprev n) (set_next (nnext n))).
+  change (match nnext n with Some x => upd m1 x (set_prev (nprev n)) | None => m1 end)
+    with (upd_opt m1 (nnext n) (set_prev (nprev n))).
+  set (m2 := upd_opt m1 (nnext n) (set_prev (nprev n))).
+  assert (SA : seg m1 None l1 (nnext n) /\ seg m1 (Some a) l2 None).
+  { unfold m1. rewrite Sp. exact (stepA (mem o) l1 a l2 (nnext n) ND S1 S2). }
+  assert (SB : seg m2 None l1 (nnext n) /\ seg m2 (nprev n) l2 None).
+  { unfold m2. destruct SA as [H H0]. pose proof (stepB m1 l1 a l2 (nprev n) (nnext n) ND H H0) as X.
+    cbv zeta in X. rewrite <- Sn in X. exact X. }
+  assert (Eabs : forall x, absl m2 x = absl (mem o) x).
+  { intros. unfold m2, m1. rewrite !absl_upd_opt_kv; auto using kv_set_next, kv_set_prev. }
+  assert (Efa : forall x k', find_addr m2 x k' = find_addr (mem o) x k').
+  { intros. unfold m2, m1. rewrite !find_addr_upd_opt_kv; auto using kv_set_next, kv_set_prev. }
+  pose proof (i_keys _ _ I) as KD. unfold absl in KD. rewrite !map_app in KD. cbn [map] in KD.
+  assert (K1 : ~ In k (map fst (absl (mem o) l1))) by (apply find_addr_none; auto).
+  assert (K2 : ~ In k (map fst (absl (mem o) l2))).
+  { apply NoDup_remove_2 in KD. fold n in KD. unfold kv in KD. cbn [fst] in KD. rewrite K in KD.
+    intros H; apply KD. apply in_or_app; right. exact H. }
+  assert (I' : InvL (mkOM m2 (match nprev n with Some _ => head o | None => nnext n end)
+                          (match nnext n with Some _ => tail o | None => nprev n end)
+                          (ddel (dict o) k) (pred (size o))) (l1 ++ l2)).
+  { constructor; cbn [mem head tail dict size].
+    - apply NoDup_remove_1 in ND; auto.
+    - apply seg_app. rewrite <- Sn, <- Sp. auto.
+    - rewrite (i_head _ _ I), Sp, Sn. rewrite !hd_or_app. destruct l1 as [|b r]; auto.
+      cbn [hd_or]. rewrite last_or_cons. destruct (last_or_some b r) as [t ->]. auto.
+    - rewrite (i_tail _ _ I), Sp, Sn. rewrite !last_or_app, last_or_cons. destruct l2 as [|y r]; auto.
+    - rewrite (i_size _ _ I). rewrite !app_length. simpl. lia.
+    - rewrite Eabs. unfold absl. rewrite map_app, map_app. apply NoDup_remove_1 in KD. exact KD.
+    - intros k'. rewrite dget_ddel, Efa, (i_dict _ _ I). rewrite !find_addr_app. cbn [find_addr]. fold n. rewrite K.
+      destruct (k' =? k) eqn:E.
+      + apply N.eqb_eq in E; subst. rewrite F1. symmetry. apply find_addr_none; auto.
+      + destruct (find_addr (mem o) l1 k'); auto. }
+  split; [eexists; eauto|]. split; auto.
+  rewrite (om_list_abs _ _ I'). cbn [mem]. rewrite Eabs. unfold absl. rewrite !map_app. cbn [map].
+  change (kv (nd (mem o) a)) with (nkey n, nval n). rewrite K. apply eq_sym, l_del_app_absent. exact K1.
+Qed.
+
+Theorem clear_spec o : Inv (om_clear o) /\ om_list (om_clear o) = [].
+Proof.
+  split. exists []; apply inv_clear. unfold om_list, om_clear; simpl. destruct (length (mem o)); auto.
+Qed.
+
+Theorem empty_spec : Inv om_empty /\ om_list om_empty = [].
+Proof. split. exists []; apply inv_empty. reflexivity. Qed.
+
+Theorem has_spec' o k : Inv o -> om_has o k = match l_get (om_list o) k with Some _ => true | None => false end.
+Proof. intros [l I]. eapply has_spec; eauto. Qed.
+
+Theorem keys_nodup o : Inv o -> NoDup (map fst (om_list o)).
+Proof. intros [l I]. rewrite (om_list_abs _ _ I). apply I. Qed.
